@@ -91,7 +91,7 @@ func c19Body(c *ev.Ctx) {
 	}
 	dims := [][2]int{{2, 2}}
 	if !quick {
-		dims = append(dims, [2]int{1, 3})
+		dims = append(dims, [2]int{3, 1}) // the generator fills 2*batch leaves: the tree must hold them
 	}
 	var cells, proofsOK, verifyOK, verifyRejected, shortVariants int64
 	classes := map[string]bool{}
